@@ -1,5 +1,39 @@
-(* C08 — placeholder until proofs/PolyDomainFacts.v lands. *)
-From Coq Require Import List. Import ListNotations.
-Require Import Py Sem Term Poly Tactics PolyDomain.
-Example C08_model_runs : poly_order (Some [2%nat]) = Some [2%nat].
-Proof. reflexivity. Qed.
+(* C08 — merging is the exact conjunction of the two viewpoints (polyhedral instance of C05_merge), the interface is the pair
+   of unions, and the operands may be given in either order.  Statements only; proofs in proofs/PolyDomainFacts.v. *)
+From Coq Require Import List String Bool QArith Reals.
+Import ListNotations.
+Require Import Py ListsGen ConstGen AlgebraGen AlgebraSpec IfaceSpec Sem Term Poly Tactics PolyDomain PolySpec TermFacts PolyFacts TacticsFacts PolyDomainFacts EqFacts PolyKeepFacts.
+
+(* assumptions equivalent to the conjunction; under them the guarantees are exactly both guarantees; interface unions *)
+Theorem C08 :
+  forall O : oracle,
+       lp_spec 0 O ->
+       forall c1 c2 m : pcontract O,
+       wfpc c1 ->
+       wfpc c2 ->
+       poly_merge O c1 c2 = inl m ->
+       wfpc m /\
+       (forall rho : val, sat_list rho (c_a m) <-> sat_list rho (c_a c1) /\ sat_list rho (c_a c2)) /\
+       (forall rho : val,
+        sat_list rho (c_a m) -> sat_list rho (c_g m) <-> sat_list rho (c_g c1) /\ sat_list rho (c_g c2)) /\
+       c_inputvars m = list_union (c_inputvars c1) (c_inputvars c2) /\
+       c_outputvars m = list_union (c_outputvars c1) (c_outputvars c2).
+Proof. exact @C08_poly. Qed.
+Print Assumptions C08.
+
+(* either operand order: same interface sets, same meaning *)
+Theorem C08_either_order :
+  forall O : oracle,
+       lp_spec 0 O ->
+       forall c1 c2 m m' : pcontract O,
+       wfpc c1 ->
+       wfpc c2 ->
+       poly_merge O c1 c2 = inl m ->
+       poly_merge O c2 c1 = inl m' ->
+       (forall x : var, In x (c_inputvars m) <-> In x (c_inputvars m')) /\
+       (forall x : var, In x (c_outputvars m) <-> In x (c_outputvars m')) /\
+       (forall rho : val, sat_list rho (c_a m) <-> sat_list rho (c_a m')) /\
+       (forall rho : val, sat_list rho (c_a m) -> sat_list rho (c_g m) <-> sat_list rho (c_g m')).
+Proof. exact @C08_poly_comm. Qed.
+Print Assumptions C08_either_order.
+
